@@ -20,6 +20,8 @@ let parse_csr (t : toks) : (nat * qc) list list * int * int =
 (* the coarsest solve of the model: exact Gauss-Jordan elimination, checked at the point of use
    (A_c w = b in exact arithmetic), as the theorem's hypothesis exact_coarse demands *)
 let coarse_solve (ac : (nat * qc) list list) (b : qc list) : qc list =
+  let n = List.length ac in
+  if not (List.for_all (List.for_all (fun (c, _) -> int_of_nat c < n)) ac) then failwith "coarsest operator: column out of range";
   match q_gauss_solve ac b with
   | None -> raise Singular
   | Some w -> if List.for_all2 qc_eqb (q_smv ac w) b then w else raise Inexact
